@@ -142,6 +142,13 @@ impl MagicSetRewriter {
                         continue;
                     }
 
+                    // The magic guard restricts the relation to the demanded tuples. That is
+                    // only sound while nothing but its own rules and the query reads it: any
+                    // other rule (e.g. the partner in a mutual recursion) needs all of it.
+                    if is_read_by_other_rules(program, &atom.relation) {
+                        continue;
+                    }
+
                     let invariants = invariant_positions
                         .get(&atom.relation)
                         .cloned()
@@ -306,6 +313,19 @@ fn compute_invariant_positions(
     }
 
     result
+}
+
+/// True if `relation` occurs (positively or negated) in the body of a rule that is
+/// neither one of its own rules nor a `__query__` rule.
+fn is_read_by_other_rules(program: &Program, relation: &str) -> bool {
+    program.rules.iter().any(|rule| {
+        rule.head.relation != relation
+            && rule.head.relation != "__query__"
+            && rule
+                .body
+                .iter()
+                .any(|pred| pred.atom().is_some_and(|a| a.relation == relation))
+    })
 }
 
 /// Check if a term is a ground (constant) term
